@@ -34,7 +34,8 @@ SmallTbl == <<"tbl", << << <<P1>> >> >>>>               \* 1 x 1
 
 PN == <<"p", <<RN>>>>
 PX == <<"p", <<RX, R>>>>
-Cells == { <<P1>>, <<P1, P1>>, <<>>, <<SmallTbl>>, <<PN>>, <<PX>>, <<H1>> }   \* plain, two paragraphs, empty, nested table, number, accented, heading
+SpanTbl == <<"tbl", << << <<P1>>, <<>>, <<P1>> >> >>>>     \* 1 x 3, the middle cell empty (writers render it as a horizontal merge)
+Cells == { <<P1>>, <<P1, P1>>, <<>>, <<SmallTbl>>, <<PN>>, <<PX>>, <<H1>>, <<SpanTbl>> }   \* plain, two paragraphs, empty, nested table, number, accented, heading, nested table with a merged cell
 Grid(r, c, special, at) ==                               \* all cells plain except cell number `at`
     <<"tbl", [i \in 1..r |-> [j \in 1..c |-> IF (i - 1) * c + j = at THEN special ELSE <<P1>>]]>>
 TableShapes ==
